@@ -104,6 +104,29 @@ static IChan* make_fixed(Kind k, uint64_t t, uint64_t u, bool d) {
     default: return new FixedChan<LockfreeSPSCRingQueue<Item, N>>(t, u, d);
     }
 }
+// see h_ring.cpp: a fixed queue whose slot array is smaller than capacity() is reported once and not stressed
+template <typename Q>
+static bool slots_cover_capacity(size_t& slots, size_t& cap) {
+    Q* q = new Q();
+    slots = Q::SLOTS_NUM;
+    cap = q->capacity;
+    delete q;
+    return slots >= cap;
+}
+static bool check_fixed_n1(Kind k) {
+    size_t slots = 0, cap = 0;
+    bool ok;
+    switch (k) {
+    case K_MPMC: ok = slots_cover_capacity<LockfreeMPMCRingQueue<Item, 1>>(slots, cap); break;
+    case K_BATCH: ok = slots_cover_capacity<LockfreeBatchMPMCRingQueue<Item, 1>>(slots, cap); break;
+    default: ok = slots_cover_capacity<LockfreeSPSCRingQueue<Item, 1>>(slots, cap); break;
+    }
+    if (!ok)
+        vh::violation(std::string("slot-array-smaller-than-capacity:") + kind_name[k],
+                      "a fixed ring queue declared with N = 1 reports capacity() 2 but owns a single slot: the second element is stored behind the object",
+                      vh::JObj().kv("template_N", 1).kv("SLOTS_NUM", (uint64_t)slots).kv("capacity", (uint64_t)cap).str());
+    return ok;
+}
 static IChan* make_chan(Kind k, bool flex, size_t c, uint64_t t, uint64_t u, bool d) {
     if (flex) {
         switch (k) {
@@ -164,6 +187,8 @@ static std::atomic<int> g_started{0};
 
 constexpr uint64_t TMASK = (1ull << 48) - 1;
 
+static size_t g_viol0 = 0;      // violations recorded before the workload started (structural pre-check)
+static bool new_violations() { return vh::n_violations() > g_viol0; }
 static std::string kkey(const char* what) { return std::string(what) + ":" + g_kname; }
 
 // ---------------------------------------------------------------- rescue events
@@ -339,7 +364,7 @@ static void os_sleep_us(uint64_t us) {
 template <typename F>
 static void wait_until(F cond) {
     for (int spin = 0; !cond(); ++spin) {
-        if (vh::n_violations()) { os_sleep_us(200); if (spin > 20000) return; }
+        if (new_violations()) { os_sleep_us(200); if (spin > 20000) return; }
         if (spin < 50) _mm_pause(); else os_sleep_us(spin < 500 ? 20 : 200);
     }
 }
@@ -368,7 +393,7 @@ static void coordinator(uint64_t rounds) {
     wait_until([] { return g_started.load(std::memory_order_acquire) == g_np + g_nc; });
     int style = r.below(4);         // 0: mostly back-to-back, 1: mostly gaps, 2/3: mixed
     vh::config("round_style", style);
-    for (uint64_t rd = 0; rd < rounds && !vh::n_violations(); ++rd) {
+    for (uint64_t rd = 0; rd < rounds && !new_violations(); ++rd) {
         uint64_t remaining = 0;
         for (int p = 0; p < g_np; ++p) remaining += left[p];
         if (remaining == 0) break;
@@ -401,7 +426,7 @@ static void coordinator(uint64_t rounds) {
                 bool all_sent = g_sent_ret.load(vh::MO) >= base_sent + burst;
                 bool slept = vh::cov(C_RINGCHAN_SENDER_BACKOFF) > bo0;
                 if (now - stable_since >= min_gap_ns && (all_sent || slept || now - stable_since >= 80000000ull)) break;
-                if (vh::n_violations()) break;
+                if (new_violations()) break;
                 os_sleep_us(300);
             }
             if (vh::cov(C_RINGCHAN_SENDER_BACKOFF) > bo0) c_backoff_observed.add();
@@ -486,11 +511,13 @@ int main(int argc, char** argv) {
     bool engine = r.chance(1, 2);
     bool allow_cpu = A.gets("shape", "") == "";
     g_recheck_us = A.geti("recheck_us", r.chance(7, 8) ? 3000000 : 0);
-    uint64_t rounds = A.geti("rounds", A.thorough() ? 3000 : 500);
+    uint64_t rounds = A.geti("rounds", A.thorough() ? 2500 : 500);
     if (vh::is_tsan()) rounds /= 4;
     rounds /= A.shape_div();
     rounds = std::max<uint64_t>(rounds, 30);
 
+    if (!flex && creq == 1 && !check_fixed_n1(kind)) creq = 2;
+    g_viol0 = vh::n_violations();
     g_ch = make_chan(kind, flex, creq, turn, usec, dflt);
     g_cap = g_ch->capacity();
     g_kname = std::string(flex ? "flex-" : "") + kind_name[kind];
@@ -555,7 +582,7 @@ int main(int argc, char** argv) {
                               vh::JObj().kv("producer", p).kv("seq", seq).kv("consumer", c.id).str());
         }
     }
-    if (!vh::n_violations() || total_recv != total_sent)
+    if (!new_violations() || total_recv != total_sent)
         for (int p = 0; p < g_np; ++p)
             for (uint64_t s = 0; s < g_p[p].next_seq; ++s)
                 if (!seen[p][s]) {
